@@ -3,6 +3,7 @@ import importlib
 import math
 import random
 
+from vpm import history
 from vpm.oracles import sphere as sp
 
 ID = "C13"
@@ -83,7 +84,7 @@ POINTS = {
                         "k = round(k + 0.5) - 0.5"),
 }
 REQUIRED_POINTS = list(POINTS)
-REQUIRED_CLAUSES = ["event.occurs", "elongation.reported-angle",
+REQUIRED_CLAUSES = [history.CLAUSE, "event.occurs", "elongation.reported-angle",
                     "order.never-backwards", "spacing.one-period",
                     "result.within-one-period", "range.refused",
                     "finder.no-exception"]
@@ -420,11 +421,12 @@ def case_leapday(mon, fi, year):
     case_event(mon, fi, q)
 
 
-CASES = {"sweep": case_sweep, "event": case_event, "range": case_range,
+CASES = {"history": history.case, "sweep": case_sweep, "event": case_event, "range": case_range,
          "leapday": case_leapday}
 
 
 def run(mon, spec):
+    history.run_cases(mon, ID, spec)
     if not sp.self_check():
         raise RuntimeError("sphere self-check failed")
     rng = random.Random(hash((spec["seed"], spec["name"])) & 0xFFFFFFFF)
